@@ -177,6 +177,13 @@ class DiffXReader(object):
                         % section_id,
                         linenum=linenum)
 
+                if not isinstance(length, int) or length < 0:
+                    raise DiffXParseError(
+                        'Expected the length option of section "%s" to be '
+                        'a non-negative integer'
+                        % section_id,
+                        linenum=linenum)
+
                 if section_id in PREAMBLE_SECTIONS:
                     # This is a preamble section.
                     #
